@@ -123,6 +123,9 @@ CHECKS = {
     "C39": ("exploration", "proptest: invalid UTF-8 written over every string site (keys, values, mark names, messages, actor-independent strings) of generated documents, changes, bundles and sync messages, checksums recomputed",
             "Every string handed out by a document / change that was accepted (keys, text, values, mark names and values, spans, messages, hydrate) must be valid UTF-8; the input is rejected or repaired.",
             "String sites are located by the harness's column parser; panics are left to C15/C16.", "3/C39"),
+    "C37": ("exploration", "proptest multi-replica history + generated abuse-call sequence (60 call kinds, 121 entry points) with argument pools of valid, stale, foreign, wrong-kind and out-of-range values; panic-catching oracle",
+            "No public call panics whatever its arguments; patches produced by diff / make_patches are accepted by hydrate::Value::apply_patches.",
+            "Debug-assertion + overflow-check build, so arithmetic overflow counts; #[doc(hidden)] calls not exercised; known findings (counter overflow, extreme commit time, NaN mark value, one fork_at panic) are avoided by construction and counted as excluded:*.", "3/C37"),
 }
 
 PENDING = {}
